@@ -1,4 +1,5 @@
 mod cfg;
+mod deep;
 mod explore;
 mod gen;
 mod lex;
@@ -96,6 +97,7 @@ fn main() {
             std::process::exit(check(&prop, &tier, emit));
         }
         "replay" => std::process::exit(replay(&args[2])),
+        "deep" => deep::worker(&args[2], args[3].parse().unwrap(), args[4].parse().unwrap(), &args[5]),
         "ordertest" => ordertest::run(),
         "lexdiff" => {
             let mut n = 0;
@@ -154,7 +156,122 @@ fn check(prop: &str, tier: &str, emit: Option<String>) -> i32 {
         stats.cases = cases;
         failures.extend(r.failures);
     }
+    if prop == "C07" {
+        deep_phase(thorough, &mut stats, &mut failures, &mut plan_rows);
+    }
     finish(prop, tier, "E1", stats, failures, plan_rows, emit, t0)
+}
+
+/// F-DEEP: every nesting kind x increasing depth x two configurations x two widths, each in a worker process
+fn deep_phase(thorough: bool, stats: &mut Stats, failures: &mut Vec<Failure>, plan_rows: &mut Vec<Value>) {
+    use std::sync::Mutex;
+    let tp = Instant::now();
+    let depths: Vec<usize> = if thorough { vec![2, 4, 8, 12, 16, 24, 32, 48, 64, 96, 128] } else { vec![2, 4, 8, 12, 16, 24, 32] };
+    let cfgs = [cfg::Cfg::default(), cfg::Cfg { cs: 3, ..cfg::Cfg::default() }];
+    let widths = [120usize, 20];
+    let timeout = std::time::Duration::from_secs(if thorough { 60 } else { 15 });
+    let results: Mutex<Vec<deep::DeepResult>> = Mutex::new(vec![]);
+    let next = std::sync::atomic::AtomicUsize::new(0);
+    let mut combos = vec![];
+    for k in deep::KINDS {
+        for c in &cfgs {
+            for w in &widths {
+                combos.push((*k, *c, *w));
+            }
+        }
+    }
+    std::thread::scope(|sc| {
+        for _ in 0..16 {
+            sc.spawn(|| loop {
+                let i = next.fetch_add(1, std::sync::atomic::Ordering::Relaxed);
+                if i >= combos.len() {
+                    break;
+                }
+                let (k, c, w) = &combos[i];
+                for d in &depths {
+                    let r = deep::run_one(k, *d, *w, c, timeout);
+                    let bad = r.outcome != "ok";
+                    results.lock().unwrap().push(r);
+                    if bad {
+                        break; // deeper nesting of the same kind is not run once this depth fails
+                    }
+                }
+            });
+        }
+    });
+    let results = results.into_inner().unwrap();
+    let mut nfail = 0;
+    let mut by: HashMap<(String, String, usize), Vec<&deep::DeepResult>> = HashMap::new();
+    for r in &results {
+        by.entry((r.kind.clone(), r.cfg.key(), r.width)).or_default().push(r);
+    }
+    let mut push = |r: &deep::DeepResult, class: &str, detail: String, failures: &mut Vec<Failure>| {
+        failures.push(Failure {
+            class: class.to_string(),
+            fam: "F-DEEP",
+            // a finding is "this nesting kind crashes / blows up", whatever the depth at which it first shows
+            text: format!("F-DEEP kind={}", r.kind),
+            cfg: r.cfg,
+            width: r.width,
+            wmax: r.width,
+            nwidths: 1,
+            range: None,
+            detail,
+            output: String::new(),
+        });
+    };
+    for r in &results {
+        stats.transitions += 1;
+        *stats.fam.entry("F-DEEP").or_insert((0, 0)) = {
+            let e = stats.fam.get("F-DEEP").cloned().unwrap_or((0, 0));
+            (e.0 + 1, e.1 + 1)
+        };
+        stats.slowest_us = stats.slowest_us.max((r.ms * 1000.0) as u128);
+        if r.outcome != "ok" {
+            let class = if r.outcome.starts_with("timeout") {
+                "deep-time"
+            } else if r.outcome.starts_with("killed") {
+                "deep-crash"
+            } else {
+                "deep-error"
+            };
+            push(r, class, format!("depth {}: outcome {} after {:.0} ms on {} bytes (2 MiB stack)", r.depth, r.outcome, r.ms, r.bytes), failures);
+            nfail += 1;
+        } else if r.ms > (5000.0f64).max(2.0 * r.bytes as f64) {
+            push(r, "deep-time", format!("depth {}: {:.0} ms for {} bytes", r.depth, r.ms, r.bytes), failures);
+            nfail += 1;
+        }
+    }
+    // polynomial growth: t(2d)/t(d) <= 16 once t(d) > 50 ms
+    for ((_k, _c, _w), rs) in &by {
+        for a in rs.iter().filter(|r| r.outcome == "ok" && r.ms > 100.0) {
+            if let Some(b) = rs.iter().find(|r| r.depth == a.depth * 2 && r.outcome == "ok") {
+                if b.ms / a.ms > 32.0 {
+                    push(b, "deep-time", format!("super-polynomial: t({})={:.0} ms but t({})={:.0} ms", a.depth, a.ms, b.depth, b.ms), failures);
+                    nfail += 1;
+                }
+            }
+        }
+    }
+    stats.tasks += combos.len();
+    stats.cases += deep::KINDS.len() * depths.len();
+    if stats.samples.len() < 12 {
+        if let Some(r) = results.iter().max_by(|a, b| a.ms.partial_cmp(&b.ms).unwrap()) {
+            stats.samples.push(format!("F-DEEP kind={} depth={} width={} {} -> {} in {:.0} ms", r.kind, r.depth, r.width, r.cfg.key(), r.outcome, r.ms));
+        }
+    }
+    plan_rows.push(json!({"plan": "F-DEEP nesting kinds x depths x {default, collapse Always} x widths {120, 20}, one worker process each, 2 MiB stack",
+        "kinds": deep::KINDS, "depths": depths, "executions": results.len(), "failures": nfail, "wall_s": tp.elapsed().as_secs_f64()}));
+    eprintln!("[C07] plan 'F-DEEP': executions={} failures={} ({:.1}s)", results.len(), nfail, tp.elapsed().as_secs_f64());
+    if std::env::var("MC_DEEP_TABLE").is_ok() {
+        let mut rows: Vec<String> = by.iter().map(|((k, c, w), rs)| {
+            let m = rs.iter().filter(|r| r.outcome == "ok").map(|r| r.ms).fold(0.0, f64::max);
+            let last = rs.iter().max_by_key(|r| r.depth).unwrap();
+            format!("{:20} w={:3} {} max_ok_ms={:8.1} deepest={} outcome={}", k, w, if c.contains("cs=Always") { "collapse" } else { "default " }, m, last.depth, last.outcome)
+        }).collect();
+        rows.sort();
+        for r in rows { eprintln!("  {}", r); }
+    }
 }
 
 #[allow(clippy::too_many_arguments)]
